@@ -187,6 +187,21 @@ func (rngdata *RangeNamespaceData) verifyShares(
 		if len(row) == 0 {
 			return fmt.Errorf("empty shares at row %d", i)
 		}
+		// every row has to carry exactly its part of the requested range. Checking only the total
+		// amount lets a response move shares between rows (a shorter first row made up for by a
+		// longer last row) and still verify against the row roots.
+		expected := odsSize
+		switch {
+		case len(shares) == 1:
+			expected = to.Col - from.Col + 1
+		case i == 0:
+			expected = odsSize - from.Col
+		case i == len(shares)-1:
+			expected = to.Col + 1
+		}
+		if len(row) != expected {
+			return fmt.Errorf("mismatched shares amount at row %d: expected %d vs got %d", i, expected, len(row))
+		}
 	}
 	if rngdata.FirstIncompleteRowProof != nil && rngdata.FirstIncompleteRowProof.Start() != from.Col {
 		return fmt.Errorf(
